@@ -52,6 +52,10 @@ def monitor(pid, year, base, assign, r, asked):
         if r.exc is None and (not r.verdict or not assign):
             add(_cli_report(year, base, r))
             cnt['solves'] += 1
+        # the real interactive route (habutax.prompt_input with scripted input()) must end where the harness prompt did
+        if not assign and r.exc is None:
+            add(_cli_prompted(year, base, r))
+            cnt['solves'] += 1
         # no-prompt run on an empty file, and a refusing user at prompt k (k = a few positions)
         n = len(asked)
         for k in sorted(set([0, n // 2])):
@@ -170,6 +174,47 @@ def _cli_report(year, base, r):
                     ok = True
             if not ok:
                 errs.append(('cli-report', f'{dep} (needed by {sorted(ws)[:3]}) is not named in the failure report'))
+    return errs
+
+
+def _cli_prompted(year, base, r):
+    """`habutax solve --prompt-missing` from an empty file through the real prompt loop: same verdict and solution
+    as the in-memory run that received the same answers"""
+    import os, re, configparser
+    from hv import cli
+    from hv.props.c20 import _Specs
+    specs = _Specs(year)
+    name_re = re.compile(r'----\[ (\S+) \]----')
+    n = {'k': 0}
+
+    def script(prompt, idx):
+        m = name_re.search(prompt)
+        n['k'] += 1
+        if not m or n['k'] > 3000:
+            return cli.Interrupt(EOFError())
+        return base.answer(specs.get(m.group(1)))
+    errs = []
+    with cli.workdir() as d:
+        inp = os.path.join(d, 'in.ini')
+        sol = os.path.join(d, 'sol.ini')
+        open(inp, 'w').close()
+        res = cli.solve_cli(year, base.requested, inp, script=script, prompt_missing=True, solution=sol)
+        if res['exc'] is not None:
+            return [('cli-prompted-raised', f'interactive solve raised {res["exc"]}; the same answers solve in memory ({r.outcome_class()})')]
+        cp = configparser.ConfigParser(interpolation=None)
+        with open(sol) as fh:
+            cp.read_file(fh)
+        got = {sec: dict(cp[sec]) for sec in cp.sections() if sec != 'habutax'}
+    ok = 'Successfully solved!' in res['stdout']
+    if ok != bool(r.verdict):
+        errs.append(('cli-prompted-verdict', f'interactive solve says {"solved" if ok else "failed"}, in-memory verdict {r.verdict}'))
+    want = {sec: {k: v.strip() for k, v in kv.items()} for sec, kv in r.solution.items()}
+    if got != want:
+        diff = []
+        for sec in sorted(set(got) | set(want)):
+            x, y = got.get(sec, {}), want.get(sec, {})
+            diff += [f'{sec}.{k}: {x.get(k)!r} vs {y.get(k)!r}' for k in sorted(set(x) | set(y)) if x.get(k) != y.get(k)]
+        errs.append(('cli-prompted-solution', f'interactive solve differs from the in-memory solve with the same answers: {diff[:4]}'))
     return errs
 
 
